@@ -120,3 +120,46 @@ func zzGet(s *BadgerStore, key []byte) ([]byte, bool) {
 	return v, true
 }
 
+
+// ZZPutSnapshot stores a snapshot body with its topology entries (as writeSnapshot does).
+func (s *BadgerStore) ZZPutSnapshot(snap *common.Snapshot, topo uint64) error {
+	txn := s.snapshotsDB.NewTransaction(true)
+	defer txn.Discard()
+	t := &common.SnapshotWithTopologicalOrder{Snapshot: snap, TopologicalOrder: topo}
+	key := graphSnapshotKey(snap.NodeId, snap.RoundNumber, snap.PayloadHash())
+	if err := txn.Set(key, t.VersionedMarshal()); err != nil {
+		return err
+	}
+	if err := writeTopology(txn, t); err != nil {
+		return err
+	}
+	return txn.Commit()
+}
+
+// ZZPutConsensusSnapshot additionally records it as the last consensus operation.
+func (s *BadgerStore) ZZPutConsensusSnapshot(snap *common.Snapshot, topo uint64) error {
+	if err := s.ZZPutSnapshot(snap, topo); err != nil {
+		return err
+	}
+	txn := s.snapshotsDB.NewTransaction(true)
+	defer txn.Discard()
+	if err := txn.Set(graphConsensusSnapshotKey(snap.Timestamp, snap.PayloadHash()), []byte{}); err != nil {
+		return err
+	}
+	return txn.Commit()
+}
+
+// ZZPutTransaction stores a transaction body (as WriteTransaction does, without the lock assertions).
+func (s *BadgerStore) ZZPutTransaction(ver *common.VersionedTransaction) error {
+	txn := s.snapshotsDB.NewTransaction(true)
+	defer txn.Discard()
+	if err := txn.Set(graphTransactionKey(ver.PayloadHash()), ver.Marshal()); err != nil {
+		return err
+	}
+	return txn.Commit()
+}
+
+// Graph validation at startup is out of scope of the restart fragments (C22's subject).
+func ZZStub_BadgerStore_ValidateGraphEntries(s *BadgerStore, networkId crypto.Hash, depth uint64) (int, int, error) {
+	return 0, 0, nil
+}
